@@ -437,7 +437,7 @@ func runC19(c *Ctx) {
 				bp := accessPath(a.Base)
 				for _, mf := range mfs {
 					want = append(want, bp+"."+mf)
-					if la.holds(a.In, bp+"."+mf, needW) {
+					if la.holds(a.In, bp+"."+mf, needW) || la.holdsAtOriginSite(a.In, a.Base, mf, needW) {
 						ok = true
 					}
 				}
@@ -458,6 +458,7 @@ func runC19(c *Ctx) {
 
 	c19Globals(c, p, la)
 	c19FreeCells(c, p)
+	c19CloseSend(c, p, la)
 
 	// R6 lock balance for every function of the scope that touches a lock
 	nBal := 0
@@ -683,6 +684,41 @@ func c19Globals(c *Ctx, p *Prog, la *lockAnalysis) {
 		gs = append(gs, g)
 	}
 	sort.Slice(gs, func(i, j int) bool { return gs[i].String() < gs[j].String() })
+	// a package variable that holds a stateful object of the standard library that is documented as not safe for
+	// concurrent use (a *rand.Rand of its own, a bytes.Buffer, ...): the per-object mutexes of the callers do not
+	// order two objects' calls into it; only a package-level lock does
+	unsafeStd := map[string]bool{"math/rand.Rand": true, "math/rand/v2.Rand": true, "bytes.Buffer": true, "strings.Builder": true, "bufio.Reader": true, "bufio.Writer": true, "bufio.ReadWriter": true}
+	for _, g := range gs {
+		pt, ok := g.Type().Underlying().(*types.Pointer)
+		if !ok {
+			continue
+		}
+		et := pt.Elem()
+		if p2, ok := et.Underlying().(*types.Pointer); ok {
+			et = p2.Elem()
+		}
+		n := namedOf(et)
+		if n == nil || n.Obj().Pkg() == nil || !unsafeStd[n.Obj().Pkg().Path()+"."+n.Obj().Name()] {
+			continue
+		}
+		name := shortPkg(g.Pkg.Pkg.Path()) + "." + g.Name()
+		o := c.Obl("R4u", name, "a package variable holding a standard-library object that is not safe for concurrent use is used only under a package-level lock", 1)
+		for _, u := range uses[g] {
+			if u.kind == 'I' {
+				continue
+			}
+			o.Site(u.in.Pos(), "use in %s held=%s", fname(u.in.Parent()), la.heldAt(u.in))
+			okLock := false
+			for path := range la.heldAt(u.in) {
+				if strings.HasPrefix(path, "global:") {
+					okLock = true
+				}
+			}
+			if !okLock {
+				o.Fail(u.in.Pos(), "%s (a %s.%s, not safe for concurrent use) is used in %s without a package-level lock: the mutex of one object does not order the calls made on behalf of another", name, n.Obj().Pkg().Name(), n.Obj().Name(), fname(u.in.Parent()))
+			}
+		}
+	}
 	all := c.Obl("R4", "package-variables", "package-level variables of the concurrent packages are enumerated; those never written after initialisation need no synchronisation", 5)
 	for _, g := range gs {
 		runtimeW, atomicUse := false, false
@@ -779,4 +815,86 @@ func reachesOnlyVia(cg *cgraph, g, root *ssa.Function) bool {
 		return false
 	}
 	return rec(g)
+}
+
+// c19CloseSend: a channel field that is closed under a mutex is only sent on under a mutex of the same owner:
+// otherwise send and close are an unordered pair (the race detector reports it, and the send can panic).
+func c19CloseSend(c *Ctx, p *Prog, la *lockAnalysis) {
+	type site struct {
+		in     ssa.Instruction
+		owners map[string]bool
+	}
+	closes := map[string][]site{}
+	sends := map[string][]site{}
+	ownersAt := func(in ssa.Instruction) map[string]bool {
+		m := map[string]bool{}
+		for _, e := range la.heldAt(in) {
+			if e.Owner != "" {
+				m[e.Owner] = true
+			}
+		}
+		return m
+	}
+	for _, f := range p.Funcs {
+		if !c19Pkgs[pkgOf(f)] {
+			continue
+		}
+		for _, fn := range withClosures(f) {
+			if fn != f && fn.Parent() == nil {
+				continue
+			}
+			instrsOf(fn, func(in ssa.Instruction) {
+				if ci, ok := in.(ssa.CallInstruction); ok && callName(ci) == "builtin.close" {
+					if role := chanRole(ci.Common().Args[0]); strings.HasPrefix(role, "field ") {
+						closes[role] = append(closes[role], site{in, ownersAt(in)})
+					}
+				}
+			})
+			for _, cm := range commsOf(fn) {
+				if cm.Dir != types.SendOnly {
+					continue
+				}
+				if role := chanRole(cm.Chan); strings.HasPrefix(role, "field ") {
+					sends[role] = append(sends[role], site{cm.Instr, ownersAt(cm.Instr)})
+				}
+			}
+		}
+	}
+	var roles []string
+	for role := range closes {
+		if len(sends[role]) > 0 {
+			roles = append(roles, role)
+		}
+	}
+	sort.Strings(roles)
+	seenSite := map[ssa.Instruction]bool{}
+	for _, role := range roles {
+		o := c.Obl("R7", strings.TrimPrefix(role, "field "), "a channel that is closed while a mutex is held is sent on only while a mutex of the same object type is held (send and close are ordered)", 1)
+		need := map[string]bool{}
+		for _, cl := range closes[role] {
+			o.Site(cl.in.Pos(), "close in %s", fname(cl.in.Parent()))
+			for ow := range cl.owners {
+				need[ow] = true
+			}
+		}
+		if len(need) == 0 {
+			continue // closed without a lock: ordering is established otherwise (sync.Once, a flag), not by this rule
+		}
+		for _, sd := range sends[role] {
+			if seenSite[sd.in] {
+				continue
+			}
+			seenSite[sd.in] = true
+			o.Site(sd.in.Pos(), "send in %s", fname(sd.in.Parent()))
+			ok := false
+			for ow := range sd.owners {
+				if need[ow] {
+					ok = true
+				}
+			}
+			if !ok {
+				o.Fail(sd.in.Pos(), "%s sends on %s without the mutex under which it is closed: an unordered send/close pair (data race, send on closed channel)", fname(sd.in.Parent()), strings.TrimPrefix(role, "field "))
+			}
+		}
+	}
 }
